@@ -69,17 +69,20 @@ def run_case(spec, ctx):
             ctx.undecided(f"assemble: {type(e).__name__}: {e}"[:150])
             ctx.sig([det], nontrivial=False)
             return
+        # contributions with a history (turn counting of revolute joints under a PD controller / spring) must see the stored
+        # trajectory in order from t0: all residuals below are recomputed on a copy of the system taken BEFORE the run
+        S_run, S = S, S.deepcopy()
         t1 = S.t0 + nsteps * dt
         opts = SolverOptions(newton_atol=TOL, newton_rtol=TOL, fixed_point_atol=TOL, fixed_point_rtol=TOL, newton_max_iter=50, fixed_point_max_iter=2000)
         try:
             if solver == "DualStormerVerlet":
-                sol = sv.DualStormerVerlet(S, t1, dt, options=opts, linear_solver="LU").solve()
+                sol = sv.DualStormerVerlet(S_run, t1, dt, options=opts, linear_solver="LU").solve()
             elif solver == "ScipyDAE":
-                sol = sv.ScipyDAE(S, t1, dt, rtol=1e-6, atol=1e-8).solve()
+                sol = sv.ScipyDAE(S_run, t1, dt, rtol=1e-6, atol=1e-8).solve()
             elif solver == "ScipyIVP":
-                sol = sv.ScipyIVP(S, t1, dt, rtol=1e-8, atol=1e-10).solve()
+                sol = sv.ScipyIVP(S_run, t1, dt, rtol=1e-8, atol=1e-10).solve()
             else:
-                sol = getattr(sv, solver)(S, t1, dt, options=opts).solve()
+                sol = getattr(sv, solver)(S_run, t1, dt, options=opts).solve()
         except Exception as e:
             ctx.undecided(f"{solver} raised {type(e).__name__}: {e}"[:150])
             ctx.cls(f"solver_raised:{solver}")
